@@ -436,7 +436,7 @@ def _reextension_guard(f, site, x):
     for n in walk_body(f):
         if isinstance(n, ast.If) and isinstance(n.test, ast.Compare) and isinstance(n.test.ops[0], ast.Eq):
             t = norm(n.test)
-            if re.search(r"\b%s\.(signExtend|zeroExtend)\(%s\.size\)" % (re.escape(v), re.escape(x)), t) and norm(n.test.comparators[0]) == x:
+            if re.search(r"\b%s\.(signExtend|zeroExtend)\(%s\.size\)" % (re.escape(v), re.escape(x)), t) and x in (norm(n.test.comparators[0]), norm(n.test.left)):
                 return True
     return False
 
@@ -454,24 +454,30 @@ def _narrow_status(f, res, fs, x, stxt, comp, site):
         return t.replace(" ", "").replace("(", "").replace(")", "")
     exact = off = False
     signed_ok = False
-    for ft in fs:
-        if ft[0] != "cmp":
-            continue
-        a, op, b = clean(ft[1]), ft[2], clean(ft[3])
-        for c in cands:
-            cc = clean(c)
-            if a == cc and b == clean(S) and op == "<":
-                exact = True
-            if a == cc and b == clean(S) + "-1" and op == "<=":
-                exact = True
-            if b == cc and a == clean(S) and op == ">":
-                exact = True
-            if a == cc and b == clean(S) and op == "<=":
-                off = True
-            if a == cc and b == clean(S1) and op == "<":
-                signed_ok = True
+    FL = {"<": ">", "<=": ">=", ">": "<", ">=": "<="}
+
+    def holds(a_txt, op, b_txt):
+        """a op b among the facts, in either orientation (a < b is b > a)"""
+        for ft in fs:
+            if ft[0] != "cmp":
+                continue
+            a, o, b = clean(ft[1]), ft[2], clean(ft[3])
+            if a == a_txt and o == op and b == b_txt:
+                return True
+            if o in FL and b == a_txt and FL[o] == op and a == b_txt:
+                return True
+        return False
+    for c in cands:
+        cc = clean(c)
+        if holds(cc, "<", clean(S)) or holds(cc, "<=", clean(S) + "-1"):
+            exact = True
+        if holds(cc, "<=", clean(S)):
+            off = True
+        if holds(cc, "<", clean(S1)):
+            signed_ok = True
     if signed_ok:
-        lower = any(ft[0] == "cmp" and clean(ft[3]) in [clean(c) for c in cands] and ft[2] == "<=" and clean(ft[1]).startswith("-1<<") for ft in fs)
+        lower = any(ft[0] == "cmp" and ((clean(ft[3]) in [clean(c) for c in cands] and ft[2] == "<=" and clean(ft[1]).startswith("-1<<")) or
+                                            (clean(ft[1]) in [clean(c) for c in cands] and ft[2] == ">=" and clean(ft[3]).startswith("-1<<"))) for ft in fs)
         if lower:
             return "ok", ""
     if exact:
@@ -486,7 +492,8 @@ def _narrow_status(f, res, fs, x, stxt, comp, site):
             if isinstance(n, ast.Call) and isinstance(n.func, ast.Attribute) and n.func.attr == "is_op" and n.args and isinstance(n.args[0], ast.Constant) \
                     and norm(comp.generators[0].iter).startswith(norm(n.func.value)):
                 ops = [n.args[0].value]
-        guard_ints = re.search(r"int\(arg\)\s*(>=|>)\s*\(?1 << size", txt) is not None or re.search(r"int\(arg\)\s*<\s*\(?1 << size", txt) is not None
+        guard_ints = re.search(r"int\(arg\)\s*(>=|>)\s*\(?1 << size", txt) is not None or re.search(r"int\(arg\)\s*<\s*\(?1 << size", txt) is not None \
+            or re.search(r"1 << size\)?\s*(<=|<|>)\s*int\(arg\)", txt) is not None
         if ops == ["&"] or guard_ints:
             return "ok", ""
         return "unguarded", ("the constant operands of %s are cut to %s bits although only '&' absorbs their high bits (zero-extended partners): "
@@ -501,9 +508,12 @@ def _r4b(ck, m, q, f):
     for n in walk_body(f):
         if isinstance(n, ast.If) and isinstance(n.test, ast.BoolOp) and isinstance(n.test.op, ast.Or) and len(n.test.values) == 2:
             a, b = n.test.values
-            if isinstance(a, ast.Compare) and isinstance(b, ast.Compare) and len(a.ops) == 1 and len(b.ops) == 1 and norm(a.left) == norm(b.left):
-                oa, ob = type(a.ops[0]), type(b.ops[0])
-                if (oa in (ast.Gt, ast.GtE) and ob in (ast.Lt, ast.LtE)) or (oa in (ast.Lt, ast.LtE) and ob in (ast.Gt, ast.GtE)):
+            from sa.astutil import less_than as _lt
+            la, lb = _lt(a, True), _lt(b, True)
+            # one atom says T is above a bound (bound < T), the other that the same T is below a bound (T < bound')
+            two_sided = la is not None and lb is not None and (norm(la[1]) == norm(lb[0]) or norm(la[0]) == norm(lb[1]))
+            if two_sided:
+                if True:
                     rets = [s_ for s_ in n.body if isinstance(s_, ast.Return)]
                     single = len(rets) == 1 and isinstance(rets[0].value, ast.Call) and callee_attr(rets[0].value) == "ExprInt"
                     # applies to passes rewriting an ordering comparison
@@ -516,7 +526,7 @@ def _r4b(ck, m, q, f):
     # positive instance bookkeeping: count the one-sided forms as discharged instances
     for n in walk_body(f):
         if isinstance(n, ast.If) and isinstance(n.test, ast.Compare) and len(n.test.ops) == 1 and "1 << " in norm(n.test) and \
-                isinstance(n.test.ops[0], (ast.GtE, ast.Gt, ast.Lt)) and len(n.body) == 1 and isinstance(n.body[0], ast.Return) and \
+                isinstance(n.test.ops[0], (ast.GtE, ast.Gt, ast.Lt, ast.LtE)) and len(n.body) == 1 and isinstance(n.body[0], ast.Return) and \
                 isinstance(n.body[0].value, ast.Call) and callee_attr(n.body[0].value) == "ExprInt" and \
                 any(isinstance(c, ast.Call) and isinstance(c.func, ast.Attribute) and c.func.attr == "is_op" and c.args and norm(c.args[0]).startswith("TOK_INF") for c in walk_body(f)):
             ck.ob("R4b", "%s:one-sided:%s" % (q, norm(n.test)[:40]), True, m.where(n), "")
